@@ -242,6 +242,16 @@ def short(path):
     return str(path).split("::")[-1]
 
 
+def flat_atoms(b, e, pol=True):
+    """condition -> [(canonical string, polarity)] of the atoms that must all hold (`!`, `&&`, negated `||` flattened)."""
+    e = strip(e)
+    if e["k"] == "Unary" and e.get("op") == "!":
+        return flat_atoms(b, e["e"], not pol)
+    if e["k"] == "Binary" and ((e["op"] == "&&" and pol) or (e["op"] == "||" and not pol)):
+        return flat_atoms(b, e["l"], pol) + flat_atoms(b, e["r"], pol)
+    return [(b.canon(e, 8), pol)]
+
+
 def match_rows(b, m):
     """[(alt key, guard node | None, body node, arm index)] in source order, one entry per alternative."""
     out = []
@@ -372,7 +382,7 @@ def find_calls(b, within, suffix):
     return [c for c in b.calls(None, within) if callee_of(c).endswith(suffix)]
 
 
-@RULES.rule("R2.1", "primitive-type tables (IntKind / FloatKind / size->uint / enum repr / CXType) agree with the C and Rust definitions", floor=150)
+@RULES.rule("R2.1", "primitive-type tables (IntKind / FloatKind / size->uint / enum repr / CXType) agree with the C and Rust definitions", floor=236)
 def r2_1(rep):
     """Necessary condition: every integer/float member, enum repr and opaque blob is spelled through these tables, so one
     wrong row gives a wrong width or signedness for every header that uses that C type.  Breaks: `(true, 2) => IntKind::U16`
@@ -458,9 +468,6 @@ def r2_1(rep):
     b3 = rep.need(prog.fn("codegen::helpers::ast_ty::int_kind_rust_type"), "fn int_kind_rust_type")
     m3 = rep.need(first_match(b3, lambda n: scrut_ty(b3, n).endswith("IntKind")), "match on IntKind in int_kind_rust_type")
     rows3 = match_rows(b3, m3)
-    layout_param = None
-    for p in b3.params:
-        pass
     pnames = [d[2]["name"] for d in b3.local_def.values() if d[0][0] == "param" and not d[1]]
     aliases = {k: v for k, v in ORACLE["rust_c_aliases"].items() if not k.startswith("_")}
     prims = {k: v for k, v in ORACLE["rust_primitives"].items() if not k.startswith("_")}
@@ -544,11 +551,9 @@ def r2_1(rep):
     # --- (f) Layout::known_type_for_size -----------------------------------------------------------------------------------
     b4 = rep.need(prog.fn("ir::layout::Layout::known_type_for_size"), "fn Layout::known_type_for_size")
     m4 = rep.need(first_match(b4, lambda n: scrut_ty(b4, n) == "usize"), "match on usize in known_type_for_size")
-    if not rep.check("param:size" in b4.canon(m4["scrut"], 4), "uint_for_size:scrutinee", "the table is indexed by the `size` argument", b4.loc(m4)):
-        pass
+    rep.check("param:size" in b4.canon(m4["scrut"], 4), "uint_for_size:scrutinee", "the table is indexed by the `size` argument", b4.loc(m4))
     rows4 = match_rows(b4, m4)
     o_sz = {int(k): v for k, v in ORACLE["uint_for_size"].items() if not k.startswith("_")}
-    some4 = any(callee_of(a).endswith("::Some") for a in b4.ancestors(m4) if a["k"] == "Call")
     seen = set()
     for alt, guard, body, i in rows4:
         if isinstance(alt, tuple) and alt[0] == "lit":
@@ -558,7 +563,7 @@ def r2_1(rep):
             if r[0] == "ctor" and r[1].endswith("::Some") and r[2]:
                 r = r[2][0]
             got = rust_of_leaf(r)
-            rep.check(guard is None and n in o_sz and got == "prim:" + o_sz[n] and (some4 or True), "uint_for_size:%s" % n,
+            rep.check(guard is None and n in o_sz and got == "prim:" + o_sz[n], "uint_for_size:%s" % n,
                       "size %s -> %s (oracle: %s)" % (n, got or show(r), o_sz.get(n, "no integer of that size")), b4.loc(body))
         elif alt == "_":
             r = val(b4, body)
@@ -642,9 +647,8 @@ def r2_1(rep):
         g = eb.canon(a["guard"], 8) if "guard" in a else ""
         okp = okp and "is_rust" in g and "translate_enum_integer_types" in g
         # polarity: both must be negated
-        from qq import _atoms
-        ats = _atoms(eb, a["guard"], True) if "guard" in a else []
-        okp = okp and any("is_rust" in s and pol is False for s, pol, _ in ats) and any("translate_enum_integer_types" in s and pol is False for s, pol, _ in ats)
+        ats = flat_atoms(eb, a["guard"], True) if "guard" in a else []
+        okp = okp and any("is_rust" in s and pol is False for s, pol in ats) and any("translate_enum_integer_types" in s and pol is False for s, pol in ats)
     rep.check(okp, "enum-repr:untranslated-only-when-not-rust", "the C integer type is kept as repr only under !translate_enum_integer_types && !variation.is_rust() "
               "(a Rust `enum` needs a primitive repr)", eb.loc(outer))
 
@@ -738,9 +742,6 @@ def r2_1(rep):
                                   "a long double whose size has no same-size integer (12 bytes on i686-linux, 10 on some m68k ABIs) is spelled `%s`, a type "
                                   "of a different size: every member after it is at the wrong offset and by-value arguments are misread (oracle: only "
                                   "a blob of the reported size keeps the layout)" % ", ".join(x.split(":", 1)[1] for x in (fb_fixed or fixed)), fb.loc(sbody))
-                # the no-layout path
-                for x in ls:
-                    pass
 
     # --- (i) build_builtin_ty: CXType_* -> TypeKind -----------------------------------------------------------------------
     bb = rep.need(prog.fn("ir::context::BindgenContext::build_builtin_ty"), "fn build_builtin_ty")
@@ -952,7 +953,7 @@ def vec_sources(b, lid):
     return out
 
 
-@RULES.rule("R2.2", "every emitted struct / union / enum definition carries an explicit FFI representation; packed / align / union structure", floor=34)
+@RULES.rule("R2.2", "every emitted struct / union / enum definition carries an explicit FFI representation; packed / align / union structure", floor=37)
 def r2_2(rep):
     """Necessary condition: a Rust type with the default representation has no defined field order, size or alignment, so a
     definition emitted without #[repr(C)] / #[repr(transparent)] / #[repr(<int>)] cannot match the C compiler's layout.
@@ -1080,14 +1081,21 @@ def r2_2(rep):
         with_n = any("packed(" in s and ")" in s.split("packed(", 1)[1] for s in lits)
         rep.check(plain and with_n and reads_align, "comp:packed-spelling",
                   "second entry is `packed` or `packed(<layout.align>)`: literals %s" % sorted(l.encode("ascii", "replace").decode() for l in lits), b.loc(e))
-    for h, e in plain_pushes:
-        pass
-    # explicit alignment
+    # explicit alignment: the `#[repr(align(#n))]` push, the Option local it is conditioned on, the assignments to that local
+    align_sites = []
+    for h, e in pushes:
+        v = val(b, e)
+        if v[0] == "tok" and v[1].startswith("# [ repr ( align ("):
+            align_sites.append((h, e, v))
+    rep.check(len(align_sites) == 1, "comp:align-push", "one `#[repr(align(#n))]` push into the attribute list (found %d)" % len(align_sites), b.loc(b.root))
     ea = None
-    for lid, d in b.local_def.items():
-        if d[0][0] == "let" and d[2]["name"] == "explicit_align" and not d[1]:
-            ea = lid
-    rep.need(ea is not None, "local explicit_align in CompInfo::codegen")
+    for h, e, v in align_sites:
+        for pol, kind, g in b.guards(h):
+            if kind == "cond" and pol and strip(g)["k"] == "LetCond" and strip(strip(g)["init"]).get("k") == "Local" and \
+                    (b.ty(strip(strip(g)["init"])) or "").startswith("std::option::Option<usize>"):
+                ea = strip(strip(g)["init"])["id"]
+    rep.need(ea is not None, "the Option<usize> local that conditions the repr(align) push in CompInfo::codegen")
+    ea_name = b.local_def[ea][2]["name"]
     assigns = [n for n in b.walk() if n["k"] == "Assign" and strip(n["l"]).get("id") == ea]
     for i, a in enumerate(assigns):
         v = val(b, a["r"])
@@ -1095,12 +1103,6 @@ def r2_2(rep):
         okv = v[0] == "ctor" and v[1].endswith("::Some") and src.endswith("Layout::align") and "Type::layout" in src
         rep.check(okv, "comp:explicit_align-source:%d" % i, "explicit_align = Some(<the type's own libclang layout>.align): %s" % src[-90:], b.loc(a))
     rep.check(len(assigns) >= 2, "comp:explicit_align-assigned", "%d assignments" % len(assigns), b.loc(b.root))
-    align_sites = []
-    for h, e in pushes:
-        v = val(b, e)
-        if v[0] == "tok" and v[1].startswith("# [ repr ( align ("):
-            align_sites.append((h, e, v))
-    rep.check(len(align_sites) == 1, "comp:align-push", "one `#[repr(align(#n))]` push into the attribute list (found %d)" % len(align_sites), b.loc(b.root))
     for h, e, v in align_sites:
         # guard: if let Some(explicit) = explicit_align
         bound = None
@@ -1113,7 +1115,7 @@ def r2_2(rep):
         src = ""
         if q and interp.startswith("#") and interp[1:] in q[0].interps():
             src = b.canon(q[0].interps()[interp[1:]], 8)
-        rep.check("int_expr" in src and "Some.0" in src and "explicit_align" not in src.replace("local:explicit_align", "explicit_align")[:0] , "comp:align-value",
+        rep.check("int_expr(" in src and ("local:%s~std::prelude::v1::Some.0" % ea_name) in src, "comp:align-value",
                   "the number is int_expr(<the bound alignment>): %s" % src[-90:], b.loc(e))
         # the alternative (dummy zero-length array field) : table n -> u(8n)
         iff = None
@@ -1234,7 +1236,7 @@ def cond_atoms(b, n, env):
     return out
 
 
-@RULES.rule("R2.3", "pure layout helpers: align_to rounds up, Layout::for_size picks a power-of-two alignment that divides the size", floor=12)
+@RULES.rule("R2.3", "pure layout helpers: align_to rounds up, Layout::for_size picks a power-of-two alignment that divides the size", floor=16)
 def r2_3(rep):
     """Necessary condition: every padding amount and every padding blob's alignment is computed by these helpers.
     Breaks: `size + align - rem` -> `size + rem` makes align_to(5, 4) = 6, so the tracker believes the next int member of
